@@ -8,6 +8,9 @@ Engine A, two groups of families:
              functions (vf.exact.RatFun) over opaque atoms -- reconstruction identity, coefficients
              free of the targets, must-return on syntactically affine input, must-raise on
              semantically non-affine input (a second finite difference is non-zero).
+* ``cc-foreign-*``  the same with one node type the collector has no rule for (// % << >> ~ | ^ &
+             comparisons, not/or/and, if, min, max, CSE) at, above or below the arithmetic nodes;
+             oracle: exact values on an integer grid (vf.refsem's clauses made exact).
 * ``sys``    integer systems  A u = B p + c  of shapes 1x1 .. 3x3 (also over- and under-determined),
              written as (lhs, rhs) pairs in five equivalent forms, unknown list in every order.
              Oracle: Gauss-Jordan over Fraction; an accepted system must be uniquely and integrally
@@ -21,6 +24,7 @@ import os
 from functools import lru_cache
 
 from vf import c15_oracle as O
+from vf import gen
 from vf.exact import RatFun
 from vf.localise import _fresh, minimal_failing_subtree, shrink
 from vf.run import Check, Res
@@ -39,6 +43,18 @@ QUICK_LEAVES = (V("x"), V("y"), SUB_A0, CALL_FX, C(2), C(-1))   # depth-3 trees 
 NARY_FILL = (V("x"), V("y"), C(2), C(-1))           # other factors/terms of a 3-ary parent
 BINARY = ("Sum", "Product", "Quotient", "Power")
 CONTAINERS = ("list", "tuple", "set", "frozenset")  # types target_names is passed as (depth 2)
+
+# node types outside + * / **: the collector has no rule for them and must refuse them when they
+# involve a target (families cc-foreign-*)
+ARITH_CTORS = gen.ctors(names=("Sum2", "Product2", "Quotient", "Power"))
+FOREIGN_CTORS = gen.ctors(names=(
+    "FloorDiv", "Remainder", "LeftShift", "RightShift", "BitwiseNot", "BitwiseOr2", "BitwiseXor2",
+    "BitwiseAnd2", "Cmp<", "Cmp<=", "Cmp>", "Cmp>=", "Cmp==", "Cmp!=", "LogicalNot", "LogicalOr2",
+    "LogicalAnd2", "If", "Min2", "Max2", "CSE"))
+FOREIGN_NEST_CTORS = [c for c in FOREIGN_CTORS if c.name not in ("Cmp<=", "Cmp>", "Cmp>=", "Cmp!=")]
+FOREIGN_LEAVES = (V("x"), V("y"), SUB_A0, C(2), C(-1))       # leaf combinations at depth 2
+FOREIGN_FILL = {"e": [V("x"), V("y"), C(2), SUB_A0, C(3)],   # distinct leaves of the nestings
+                "b": [V("x"), V("y"), C(2), SUB_A0, C(3)]}
 
 COEFF_2 = (1, -1, 2, -2, 0)                          # coefficients of 1- and 2-unknown systems
 COEFF_1 = (1, -1, 2, -2, 3, -3, 0)                   # ... of 1x1 systems
@@ -172,6 +188,97 @@ def cc_case(spec, targets, container="list", cross_check=False):
 # }}}
 
 
+# {{{ collector: one case with node types outside + * / **
+
+def ccf_case(spec, targets, container="list"):
+    """Like :func:`cc_case` for a tree that contains floor division, remainder, shifts, bitwise or
+    logical operators, comparisons, if, min, max or a common-subexpression wrapper.  There is no
+    rational function to compare with; the oracle is the exact value at every point of
+    O.GRID ** atoms.  must-raise: some second finite difference in the target atoms is a non-zero
+    number at a grid point; otherwise either; a returned result must have target keys,
+    target-free coefficients and reproduce the value at every grid point."""
+    from pymbolic.mapper.coefficient import CoefficientCollector
+    tset = None if targets is None else frozenset(targets)
+    try:
+        tab = O.grid_table(spec)
+        expr = _build(spec)
+    except RecursionError:
+        raise
+    except Exception:  # noqa: BLE001
+        return None, "", None
+    if tab is None:
+        return None, "", None
+    atoms, table = tab
+    if all(v is None for v in table.values()):
+        return None, "", "undefined"
+    status = {O.atom_name(lf): O.leaf_status(lf, tset) for lf in O.leaves_any(spec)}
+    witness = None
+    if "ambiguous" in status.values():
+        cls = "open"
+    else:
+        witness = O.grid_nonaffine(spec, [a for a in atoms if status[a] == "target"])
+        cls = "must-raise" if witness else "either"
+    try:
+        got = CoefficientCollector(_container(targets, container))(expr)
+    except RecursionError:
+        raise
+    except Exception:  # noqa: BLE001
+        return None, "", cls
+    if not isinstance(got, dict):
+        return "not-a-dict", f"returned {got!r}", cls
+    shown = "{" + ", ".join(f"{k}: {v}" for k, v in got.items()) + "}"
+    if cls == "must-raise":
+        pt, t, u = witness
+        return ("returned-on-nonaffine",
+                f"not affine in the targets (second finite difference in {t}, {u} at "
+                f"{dict(zip(atoms, pt))} is non-zero) but returned {shown}", cls)
+    leaf_specs = {lf for lf in O.leaves_any(spec)}
+    terms = []
+    for k, coeff in got.items():
+        is_one = isinstance(k, int) and not isinstance(k, bool) and k == 1
+        ks = None
+        if not is_one:
+            ks = to_spec(k)
+            if ks not in leaf_specs or status[O.atom_name(ks)] == "param":
+                return "bad-key", f"key {k} is not a target variable of the input; got {shown}", cls
+        cs = to_spec(coeff)
+        if O.mentions_target_any(cs, tset):
+            return ("coeff-not-free",
+                    f"coefficient of {k} is {coeff}, which contains a target variable; got {shown}",
+                    cls)
+        terms.append((None if is_one else O.atom_name(ks), cs))
+    for pt, want in table.items():
+        if want is None:
+            continue
+        env = dict(zip(atoms, pt))
+        total = 0
+        for name, cs in terms:
+            cv = O.point_value(cs, env)
+            if cv is None:
+                total = None
+                break
+            total = total + (cv if name is None else cv * env[name])
+        if total != want:
+            return ("reconstruction",
+                    f"at {env}: sum(coeff*var)+const = {total} but the input is {want}; "
+                    f"got {shown}", cls)
+    return None, "", cls
+
+
+@lru_cache(maxsize=8192)
+def _build(spec):
+    return build(spec)
+
+
+def any_case(spec, targets, container="list"):
+    """Dispatch on the node types of the tree: exact rational functions or exact grid points."""
+    if O.has_foreign(spec):
+        return ccf_case(spec, targets, container)
+    return cc_case(spec, targets, container)
+
+# }}}
+
+
 # {{{ collector: reduce a failing tree to minimal failing subtrees (with a per-process memo)
 
 _FAILS = {}       # (targets, container) -> {spec: failure kind or None}
@@ -207,7 +314,7 @@ def cc_explain(spec, targets, container):
         if s in fmemo:
             return fmemo[s]
         try:
-            k = cc_case(s, targets, container)[0]
+            k = any_case(s, targets, container)[0]
         except RecursionError:
             raise
         except Exception:  # noqa: BLE001
@@ -388,7 +495,15 @@ class C15(Check):
         "and frozenset), every binary tree of depth 3 (quick: over the leaves x y a[0] f(x) 2 -1), "
         "every 3-ary Sum/Product with one depth-2 child in each position and the other two "
         "children from x y 2 -1; each with target_names = None and every subset of {x,y,z,a} "
-        "(quick depth 3: of {x,y,a}). Solver (family sys): every integer system of shape (eqs "
+        "(quick depth 3: of {x,y,a}). Node types the collector has no rule for (cc-foreign-*): "
+        "FloorDiv, Remainder, LeftShift, RightShift, BitwiseNot/Or/Xor/And, the 6 comparisons, "
+        "LogicalNot/Or/And, If, Min, Max and the common-subexpression wrapper, each with every "
+        "leaf combination over x y a[0] 2 -1 (depth 2), every (parent, position, child) nesting "
+        "with + * / ** on either side or with each other, and every three-level chain with one "
+        "such node above, between or below two of + * / **; same target sets; judged on the exact "
+        "values at every point of {-2..3}^atoms (a non-zero second finite difference in the "
+        "targets at a grid point = not affine = must raise; a returned result must reproduce "
+        "the value at every grid point). Solver (family sys): every integer system of shape (eqs "
         "x unknowns) 1x1 (coefficients -3..3), 2x1, 1x2, 2x2 (coefficients -2..2) with right-hand "
         "sides from {0,1,2,p,p+q} (1x1/2x1 also a[0], 2p-1, -p+2q+3), 3x2, 2x3 and (thorough) 3x3 "
         "with coefficients -1..1 and right-hand sides from {0,1,p}; these sets are closed under "
@@ -420,6 +535,12 @@ class C15(Check):
         "system; such refusals are counted (sys_refused_solvable), not reported (none occurs "
         "within the bounds once the two proposed fixes are applied)",
         "expressions without a value anywhere (division by the zero function) are skipped",
+        "operators outside + * / ** have no exact rational-function value: non-affinity is decided "
+        "by a non-zero second difference on the integer grid {-2..3}^atoms (sound; a tree whose "
+        "differences vanish on the grid is not required to raise), a returned result is compared "
+        "with the exact Fraction value at every grid point, logical nodes are truth-valued, and "
+        "refusing such a node is accepted even where it involves no target (e.g. (a // 2) * x for "
+        "target x raises UnsupportedExpressionError today)",
     ]
     hash_seeds = {"quick": [0, 1, 2], "thorough": [0, 1, 2, 3, 4, 5, 6, 7]}
     chunk = 100
@@ -437,6 +558,8 @@ class C15(Check):
                 ("cc-depth2", self.gen_cc_depth2),
                 ("cc-depth3", lambda: self.gen_cc_depth3(cc_leaves)),
                 ("cc-nary3", lambda: self.gen_cc_nary3(cc_leaves)),
+                ("cc-foreign-depth2", lambda: self.gen_ccf_depth2(quick)),
+                ("cc-foreign-nest", lambda: self.gen_ccf_nest(quick)),
             ]
         fams.append(("sys", lambda: self.gen_systems(quick, first)))
         return fams
@@ -491,6 +614,25 @@ class C15(Check):
                             ch.insert(pos, kid)
                             yield ("cc", (op, T(*ch)), "q" if leaves is QUICK_LEAVES else "t")
 
+    def gen_ccf_depth2(self, quick):
+        """Every operator outside + * / ** with every leaf combination."""
+        mode = "q" if quick else "t"
+        for s in gen.depth2(FOREIGN_CTORS, FOREIGN_LEAVES):
+            yield ("cc", s, mode)
+
+    def gen_ccf_nest(self, quick):
+        """Every (parent, position, child) nesting with at least one such operator, and every
+        three-level chain arithmetic > arithmetic > operator, arithmetic > operator > arithmetic,
+        operator > arithmetic > arithmetic (e.g. 3*(x // 2) + 1, (2*x + a) // 4 + x)."""
+        mode = "q" if quick else "t"
+        A, F = ARITH_CTORS, FOREIGN_NEST_CTORS
+        for parents, kids in ((A, F), (F, A), (F, F)):
+            for _, s in gen.nest2(parents, kids, FOREIGN_FILL):
+                yield ("cc", s, mode)
+        for gps, parents, kids in ((A, A, F), (A, F, A), (F, A, A)):
+            for _, s in gen.nest3(gps, parents, kids, FOREIGN_FILL):
+                yield ("cc", s, mode)
+
     def gen_sys(self, m, n, coeffs, rhs_pool, forms, all_orders=True, rhs_combos=None):
         names = UNKNOWNS[:n]
         orders = list(itertools.permutations(names)) if all_orders else [names]
@@ -531,22 +673,27 @@ class C15(Check):
                 cases = [(t, "list") for t in QUICK_TARGETS]
             else:
                 cases = [(t, "list") for t in ALL_TARGETS]
+        foreign = O.has_foreign(spec)
+        pre = "ccf_" if foreign else "cc_"
         for targets, container in cases:
-            kind, detail, cls = cc_case(spec, targets, container, cross_check=mode == "all")
+            if foreign:
+                kind, detail, cls = ccf_case(spec, targets, container)
+            else:
+                kind, detail, cls = cc_case(spec, targets, container, cross_check=mode == "all")
             if cls is None:
                 continue
             if cls == "undefined":
-                r.count("cc_undefined")
+                r.count(pre + "undefined")
                 continue
             r.evals += 1
             r.keys.append((spec, targets, container))
-            r.count("cc_" + cls.replace("-", "_"))
+            r.count(pre + cls.replace("-", "_"))
             if kind:
                 locs = cc_explain(spec, targets, container)
                 if not locs:
                     locs = [(kind, cc_signature(kind, spec, targets), spec)]
                 for kk, sig, m in locs:
-                    d = cc_case(m, targets, container)[1]
+                    d = any_case(m, targets, container)[1]
                     r.fail(kk, sig,
                            f"CoefficientCollector({_container(targets, container)!r}) on "
                            f"{show(spec)}: minimal failing tree {show(m)}: {d}",
